@@ -74,7 +74,12 @@ static const struct enc ENC[] = {
 #define NENC (sizeof ENC / sizeof ENC[0])
 #define SUB 64
 
-enum { K_ENCCALLS = VC_USER, K_DECCALLS, K_CTRL_UNDECODABLE, K_STRING_PAYLOAD, K_BUFSIZES, K_REFUSED_SMALL, K_NAN, K_HALF, K_SINGLE, K_DOUBLE, K_TOTALITY, K_LOADS };
+#if PROP == 7
+#define K_BASE (VC_USER + 20)
+#else
+#define K_BASE VC_USER
+#endif
+enum { K_ENCCALLS = K_BASE, K_DECCALLS, K_CTRL_UNDECODABLE, K_STRING_PAYLOAD, K_BUFSIZES, K_REFUSED_SMALL, K_NAN, K_HALF, K_SINGLE, K_DOUBLE, K_TOTALITY, K_LOADS };
 static vf_sb sb;
 
 /* expected RFC bytes for encoder e applied to raw value v (for floats: v = bit pattern of the argument;
